@@ -9,8 +9,8 @@ NOTE = ("verdicts are z3 4.8.12 / z3 5.1.0 / cvc5 1.0 answers over the symgo SSA
 CLAIMED = {
  "C11": ("scan-range completeness, the kernel where the chosen access path can change the set of rows: for INTEGER indexes of 1-2/3 columns and every conjunction of up to 3/4 comparisons with symbolic operators and constants, the key range derived by the real range-folding and key-reader-spec code contains the index key of every row that satisfies the predicate (ascending and descending scans)",
          "NOT the SQL engine end to end: parsing, planning/index selection, push-down, joins, grouping, sorting and restart are outside the claim; other column types rely on the per-type key-order obligations of C15", "DESIGN.md §4 C11"),
- "C10": ("the in-memory timed B-tree against a reference multi-version ordered map over bounded bulk-insert sequences from the empty tree (symbolic keys, values, timestamps; node size forcing splits): structure, in-order content, point lookups, revision counts, rejection of stale timestamps without change, and copy-on-write (a pinned root keeps answering as before)",
-         "flush, compaction, restart, readers (seek/end/direction), history log, snapshot policy and concurrency are outside the claim; 1-byte keys/values, at most 3 bulks", "DESIGN.md §4 C10"),
+ "C10": ("the in-memory timed B-tree against a reference multi-version ordered map over bounded bulk-insert sequences from the empty tree (symbolic keys, values, timestamps; node size forcing splits): structure, in-order content, point lookups, revision counts, rejection of stale timestamps without change, copy-on-write (a pinned root keeps answering as before), history / getBetween per key, and a write-then-load round trip through the real node writers and readers (history served from the history log) giving the same answers",
+         "flush bookkeeping (OnlyMutated, offsets, cleanup), compaction, restart, readers (seek/end/direction), snapshot policy and concurrency are outside the claim; 1-byte keys/values, at most 3-4 symbolic bulks on a concrete preload", "DESIGN.md §4 C10"),
  "C03": ("hash-tree crash consistency on the real AHtree code: for every crash point between the appendable operations of a workload of n appends (sync thresholds 1..2/3, optional explicit syncs) and every combination of which unsynced writes reached each of the three logs (plus a torn last commit entry), reopening succeeds, keeps every entry covered by a completed sync and serves only roots/payloads of the appended sequence",
          "the hash tree plus the write ordering of ImmuStore.sync (value logs, tx log and hash tree are flushed and synced before any commit-log entry is appended, and the commit log is synced before the synced frontier moves), decided on a recording appendable; recovery of the whole store (store.OpenWith), the index, repeated crashes and concurrent committers are outside the claim; crash model and granularity are listed in the evidence", "DESIGN.md §4 C03"),
  "C04": ("what reaches the index: for every bulk of committed transactions within the bounds (bulk size, entries per tx, symbolic keys and non-indexable flags) the plain indexer hands the tree exactly one (key, tx id) per indexable entry, in order, with intact key content, and only advances the logical time when nothing is indexable; scans over a snapshot (real NewKeyReader/Read/ReadBetween with the deleted/expired filters, offset, tx range) return exactly the matching live keys in order; History (store and snapshot) numbers every version by its position in commit order on every page; SQL secondary-index entries derived from row values order rows exactly as (indexed columns, primary key) with NULL first",
